@@ -3205,11 +3205,6 @@ let bind x f =
 let raise e p =
   Err (e, (Some p))
 
-(** val raise_np : err -> 'a1 res **)
-
-let raise_np e =
-  Err (e, None)
-
 (** val unsupported : 'a1 res **)
 
 let unsupported =
@@ -5768,7 +5763,7 @@ let rec sizeof c cx p =
   | CSequence cs -> catch_key (sum_sizes sizeof (push_scope cx) p cs) p
   | CFocusedSeq (_, cs) -> catch_key (sum_sizes sizeof (push_scope cx) p cs) p
   | CIfThenElse (e, a, b) ->
-    bind (eval cx e) (fun v ->
+    bind (catch_key (eval cx e) p) (fun v ->
       if truthy v then sizeof a cx p else sizeof b cx p)
   | CSwitch (e, cases, d) ->
     catch_key
@@ -5806,7 +5801,7 @@ let rec sizeof c cx p =
     bind (sizeof lc cx p) (fun a ->
       bind (sizeof c0 cx p) (fun b -> Ok (Z.add a b)))
   | CFixedSized (len, _) ->
-    bind (eval_int cx len) (fun n0 ->
+    bind (catch_key (eval_int cx len) p) (fun n0 ->
       if Z.ltb n0 Z0 then raise EPadding p else Ok n0)
   | CTransformed (_, _, da, _, ea) ->
     (match da with
@@ -6463,8 +6458,8 @@ let rec parse c cx p s =
        | VBytes d ->
          (match decode enc d with
           | Some cps -> Ok ((VStr cps), s')
-          | None -> raise_np EString)
-       | _ -> raise_np EString))
+          | None -> raise EString p)
+       | _ -> raise EString p))
   | CEnum (c', table) ->
     bind (parse c' cx p s) (fun pat ->
       let (v, s') = pat in
@@ -7483,7 +7478,7 @@ let rec build c obj cx p o =
       | _ :: _ ->
         (match encode enc cps with
          | Some d -> Ok (VBytes d)
-         | None -> raise_np EString)
+         | None -> raise EString p)
     in
     bind
       (match obj with
